@@ -54,3 +54,21 @@ Proof. vm_compute. reflexivity. Qed.
 Example C04_control_in_list_rejected :   (* for ... { x := [1, if i > 1 { continue }, 3] } *)
   certify [24;0;33;67;23;67;24;1;41;1;12;36;24;2;23;67;24;3;41;5;12;7;11;14;80;11;3;80;24;4;50;3;33;68;80;72;23;67;24;5;40;1;33;67;10;40;80] true = None.
 Proof. vm_compute. reflexivity. Qed.
+
+(* "Every expression adds exactly one value" on the executable VM model (the one compared with the real VM on
+   every run), for the whole scalar expression fragment: executed inside any code object, at any position, on any
+   stack [st] with room for it, the code of an expression either stops with an error or continues right after
+   its last instruction with the stack [v :: st] - exactly one value on top of an unchanged stack.  (Theorem
+   vm_scalar of proofs/VMScalarProofs.v; the statement-level claims above are about the abstract height machine.) *)
+From Coq Require Import ZArith NArith.
+Require Import RV.model.Syntax RV.model.Compiler RV.model.VM RV.model.ScalarFrag RV.proofs.VMScalarProofs.
+Theorem C04_scalar_expression_pushes_one :
+  forall tabs c below frames free defers is_main s e base pre post st,
+  code_instr c = (pre ++ fst (cexp base e) ++ post)%list ->
+  (forall i k, nth_error (snd (cexp base e)) i = Some k -> nth (base + i)%nat (code_consts c) (KInt 0%Z) = k) ->
+  (below + List.length st + need e <= MAXSTACK)%nat ->
+  exists k, forall f,
+    (exists v, exec tabs (k + f)%nat c (List.length pre) st below frames free defers is_main s =
+               exec tabs f c (List.length pre + List.length (fst (cexp base e)))%nat (v :: st)%list below frames free defers is_main s)
+    \/ (exists x, exec tabs (k + f)%nat c (List.length pre) st below frames free defers is_main s = (RErr x s, defers)).
+Proof. exact scalar_pushes_one. Qed.
